@@ -977,7 +977,10 @@ func (x *Exec) step(st *State, fr *Frame, in ssa.Instruction) {
 	case *ssa.Alloc:
 		ty := deref(ins.Type())
 		var init Value
-		if isObjectType(ty) {
+		if np := namedPath(ty); strings.HasPrefix(np, "cosmossdk.io/collections.Range") || strings.HasPrefix(np, "cosmossdk.io/collections.PairRange") {
+			// new(collections.Range[K]): the unrestricted range, refined by its builder methods
+			init = RangeV{}
+		} else if isObjectType(ty) {
 			init = ObjV{Path: "local_" + ins.Comment, Ty: ty}
 		} else if isCtxType(ty) {
 			init = CtxV{H: -1}
